@@ -392,7 +392,7 @@ class UnusedVotesDistributor(MultistageDistributor):
                  prev_gains: Dict[Candidate, int] = {},
                  max_seats: Dict[Candidate, int] = {},
                  ) -> Dict[Candidate, int]:
-        elected = prev_gains.copy()
+        elected = self._copy_nested(prev_gains, self.depth)
         if max_seats:
             raise NotImplementedError('max_seats not supported')
         for stage, quota_fx in zip(self.rounds, self.quota_functions + [None]):
